@@ -175,7 +175,16 @@ func (h *HttpServer) readHTTPBody(r *http.Request) ([]byte, error) {
 		} else if decompressedCap <= 0 && limit > 0 {
 			decompressedCap = limit * 16
 		}
-		return decompressBounded(encoding, body, decompressedCap)
+		decoded, err := decompressBounded(encoding, body, decompressedCap)
+		var tooLarge *requestBodyTooLargeError
+		if errors.As(err, &tooLarge) && !(requestCapApplied && decompressedCap == limit) {
+			// Only the advertised max_request_bytes answers 413. An overrun of
+			// the separate (explicit or derived) decompressed-size cap is a
+			// plain bad request: the client cannot discover that cap, and the
+			// 413 message would name a max_request_bytes it never exceeded.
+			return nil, &RpcError{Type: "ValueError", Message: fmt.Sprintf("Decompressed request body exceeds maximum size of %d bytes", decompressedCap)}
+		}
+		return decoded, err
 	default:
 		return nil, &unsupportedEncodingError{Encoding: encoding}
 	}
